@@ -510,11 +510,19 @@ func (c *StreamCfg) unknownRecord(t *rapid.T, b []byte, md protoreflect.MessageD
 	// raw bytes: nodes that are not google.protobuf.* messages (protobuf-go's
 	// table decoder, used for the well-known types, re-encodes the tag).
 	if !c.Canonical && gdepth == 0 && !strings.HasPrefix(string(md.FullName()), "google.protobuf.") && rapid.IntRange(0, 9).Draw(t, "padunktag") == 0 {
-		typ := protowire.Type(rapid.SampledFrom([]int{0, 1, 2, 5}).Draw(t, "padunktype"))
+		typ := protowire.Type(rapid.SampledFrom([]int{0, 1, 2, 5, 3}).Draw(t, "padunktype"))
 		v := protowire.EncodeTag(num, typ)
 		c.label("unknown-record-with-padded-tag")
 		b = appendVarintPadded(b, v, protowire.SizeVarint(v)+rapid.IntRange(1, 2).Draw(t, "padunklen"))
 		switch typ {
+		case protowire.StartGroupType:
+			// the end tag's width is drawn on its own: shorter or longer than the start tag's
+			c.label("unknown-group-with-padded-tags")
+			for i, n := 0, rapid.IntRange(0, 2).Draw(t, "padgrouplen"); i < n; i++ {
+				b = c.unknownRecordNum(t, b, protowire.Number(rapid.IntRange(1, 3000).Draw(t, "grpnum")), gdepth+1)
+			}
+			e := protowire.EncodeTag(num, protowire.EndGroupType)
+			return appendVarintPadded(b, e, protowire.SizeVarint(e)+rapid.IntRange(0, 3).Draw(t, "padendlen"))
 		case protowire.VarintType:
 			return c.varint(t, b, genU64.Draw(t, "unkv"))
 		case protowire.Fixed32Type:
